@@ -14,10 +14,10 @@ type Item struct {
 
 // Bounds fixes the finite space. Every family is enumerated completely inside it.
 type Bounds struct {
-	F1Depth int   // maximal length of the construct chain
-	Iter    int   // iterations of every generated loop
-	F2Depth int   // nesting depth of the "return from inside" chains
-	F4Len   int   // number of free statements in F4 programs
+	F1Depth int // maximal length of the construct chain
+	Iter    int // iterations of every generated loop
+	F2Depth int // nesting depth of the "return from inside" chains
+	F4Len   int // number of free statements in F4 programs
 	F4Loops []string
 	Seed    int64 // concretisation only (identifier spellings, marker letters)
 }
@@ -30,7 +30,19 @@ func Thorough() Bounds {
 	return Bounds{F1Depth: 4, Iter: 3, F2Depth: 2, F4Len: 3, F4Loops: []string{LWhile, LFor, LDoWhile, LForeach}}
 }
 
-// All streams F1..F4 in order. yield returns false to stop.
+// Family streams one family ("F1".."F4") with the seed applied. The order is deterministic, so a
+// consumer can shard by running index (see also F4Range / F4Count for the big family).
+func Family(name string, b Bounds, yield func(Item) bool) {
+	All(b, func(it Item) bool {
+		if it.Family == name {
+			return yield(it)
+		}
+		return it.Family <= name // families are streamed in order: stop once we are past it
+	})
+}
+
+// All streams F1..F4 in order with the seed applied. yield returns false to stop.
+// (F1, F2, F3 called directly yield the un-seeded programs; F4Range applies the seed itself.)
 func All(b Bounds, yield func(Item) bool) {
 	cont := true
 	y := func(c Item) bool {
